@@ -3,6 +3,7 @@ CONSTANTS
   K = 2
   Kinds = {"view"}
   Emit = FALSE
+  RepLevel = 2
   Bug = "simplifies_targets"
 INVARIANTS InvView
 CHECK_DEADLOCK FALSE
